@@ -178,13 +178,13 @@ func genHashScenario(r *kernel.RNG, tier string, i int) interface{} {
 			}
 		}
 	}
-	if r.Chance(0.012) {
+	if r.Chance(0.006) {
 		// big hashes: sizes on both sides of the powers of two where an implementation may switch representation or
 		// batch its bookkeeping; the ballast keys are keys like any other (the operations below land on them)
 		if sc.Ctor == "empty" {
 			sc.Ctor = "hash"
 		}
-		nb := r.PickInt([]int{40, 70, 130, 250, 260, 300})
+		nb := r.PickInt([]int{40, 70, 130, 250, 260, 300, 260})
 		for b := 0; b < nb; b++ {
 			sc.Keys = append(sc.Keys, hkey{"int", strconv.Itoa(2000000 + b)})
 			sc.Init = append(sc.Init, len(sc.Keys)-1)
